@@ -517,6 +517,7 @@ class AFlags(Plugin):
     def init(s, eng):
         s.prog = eng.prog
         s.pinned = set()                         # facts about the nullness of allocation results are kept to the returns
+        s.undecided = set()                      # observations that the current precision level cannot turn into a verdict
         return (frozenset(), frozenset())        # ({(alloc root, status)}, {violation tokens})
 
     def no_inline(s, fn):
@@ -563,7 +564,13 @@ class AFlags(Plugin):
             name, eff, args, inst, fr, vid = call[1], call[2], call[3], call[4], call[5], call[6]
             if name in ("malloc", "calloc") and vid:
                 if any(r == vid and stt == "live" for (r, stt) in allocs):
-                    viol = viol | {("leak-overwritten", vid, name, inst.get("line"))}
+                    # "this allocation executes again while its previous block is still owned" needs the numeric relation that guards the site
+                    # (first-time allocation: capacity == initial size); the coarse precision level carries no such facts across iterations,
+                    # so there the observation is not a verdict (it was a false alarm for wcsnorm_reorder_s / wcsnorm_compose_s)
+                    if getattr(eng, "precision", "high") == "high":
+                        viol = viol | {("leak-overwritten", vid, name, inst.get("line"))}
+                    else:
+                        s.undecided.add(("leak-overwritten", vid, inst.get("line")))
                 s.pinned.add("&" + vid)
                 if getattr(s, "split_alloc", False):
                     # the allocation succeeds or fails: two outcomes, so that 'failed and still returns success' is a visible path
